@@ -74,6 +74,21 @@ Theorem C19_access_wired :
                     end) talks_to_validator = true.
 Proof. vm_compute. reflexivity. Qed.
 
+(* C18 / C19: one request has one "now". The info and progress handlers reach exactly one watch.Now()
+   call site, outside any loop (the model's tx_info and progress_of take one clock reading as input: a
+   second reading - in the handler or in a helper it calls - could fall in another block slot). The
+   balance handler has one call site inside its per-output loop: it reads the clock once per output
+   (microseconds apart; the model and the suites value all outputs at one instant - noted in DESIGN.md). *)
+Definition reads_of (h : string) : list (nat * nat) :=
+  map (fun r => (snd (fst r), snd r)) (filter (fun r => String.eqb (fst (fst r)) h) clock_reads).
+
+Theorem C18_single_clock_reading :
+  reads_of "InfoController.GetTransactionInfo" = [(1, 0)] /\
+  reads_of "ProgressController.GetTransactionProgress" = [(1, 0)] /\
+  reads_of "AmountController.GetWalletAmount" = [(1, 1)].
+Proof. vm_compute. repeat split; reflexivity. Qed.
+
 Print Assumptions C20_engines_wired.
 Print Assumptions C13_host_wired.
 Print Assumptions C19_access_wired.
+Print Assumptions C18_single_clock_reading.
